@@ -1431,7 +1431,6 @@ class WBEMListener:
                             ListenerRequestHandler)
                     except OSError as exc:
                         # Note: socket.gaierror is derived from OSError
-                        self._stop_indication_delivery()
                         if getattr(exc, 'errno', None) == errno.EADDRINUSE:
                             # Windows does not raise exception if port is used
                             msg = (f"WBEM listener port {self._http_port} is "
@@ -1472,7 +1471,6 @@ class WBEMListener:
                             ListenerRequestHandler)
                     except OSError as exc:
                         # Note: socket.gaierror is derived from OSError
-                        self._stop_indication_delivery()
                         if getattr(exc, 'errno', None) == errno.EADDRINUSE:
                             # Windows does not raise exception if port is used
                             msg = (f"WBEM listener port {self._https_port} is "
@@ -1567,8 +1565,11 @@ class WBEMListener:
                     server not in (self._http_server, self._https_server):
                 # Server that was created but not started yet
                 server.server_close()
+            # First stop the listener threads so that no further indications
+            # are received, then deliver the indications that have already
+            # been acknowledged to their senders, as in stop().
             self._stop_listener_threads()
-            self._stop_indication_delivery(immediate=True)
+            self._stop_indication_delivery()
             raise
 
     def stop(self):
